@@ -329,6 +329,9 @@ static int32_t fsr_statistics(struct jls_core_s * self, uint16_t signal_id,
                                   incr, f64_tmp4, 1));
         ROE(jls_raw_chunk_seek(self->raw, pos));
         ROE(rd_stats_chunk(self, signal_id, level));
+        // the reads above may have moved the buffer
+        f32_summary = (struct jls_fsr_f32_summary_s *) self->buf->start;
+        f64_summary = (struct jls_fsr_f64_summary_s *) self->buf->start;
         f64_to_stats(&stats_accum, f64_tmp4, incr);
         incr_remaining -= incr;
         start_sample_id += incr;
@@ -370,6 +373,9 @@ static int32_t fsr_statistics(struct jls_core_s * self, uint16_t signal_id,
                 ROE(jls_core_fsr_statistics(self, signal_id, start_sample_id - sample_id_offset,
                                             incr_remaining, f64_tmp4, 1));
                 f64_to_stats(&stats_next, f64_tmp4, incr_remaining);
+                jls_statistics_combine(&stats_accum, &stats_accum, &stats_next);
+                stats_to_f64(data, &stats_accum);
+                return 0;  // the last entry: the summary chunk is no longer in the buffer, and no longer needed
             } else if (is_f32) {
                 f32_to_stats(&stats_next, f32_summary->data[src_offset], incr_remaining);
             } else {
